@@ -231,9 +231,10 @@ def file_harness(L, kind, sw, ch, sr, KF):
 
 
 def ms_setter_fp_harness(iom, rate, bits):
-    """bit-exact side of `position_ms = m`: the real setter computes int(rate*m/1000) in doubles.  rate*m is an exact Python
-    int; for |rate*m| <= 2**bits (< 2**53, so it converts exactly) the truncated double quotient must be the exact truncated
-    quotient.  Decided by cvc5 (QF_FP); z3 returns unknown on this lemma."""
+    """bit-exact side of `position_ms = m`: the real setter computes a sample index from the int m in double arithmetic.
+    m is an integral double M with |rate*M| <= 2**bits (< 2**53: rate*M is exact); whatever expression the setter uses
+    (rate*m/1000, rate*(m/1000), ...) the truncated result must be the exact truncated quotient rate*m/1000.
+    Decided by cvc5 (QF_FP); z3 returns unknown on this lemma."""
     import z3 as _z3
     from ..fp import SymFP, SymFPInt, F, RNE, fpv
 
@@ -248,30 +249,29 @@ def ms_setter_fp_harness(iom, rate, bits):
         def position(self, value):
             Capture.captured = value
 
-    class Ms:
-        """stands for the int `m`: rate * m is the exact integer X (an integral double), nothing else is allowed"""
-        __sx_proxy__ = True
-
-        def __init__(self, X):
-            self.X = X
+    class Ms(SymFPInt):
+        """stands for the Python int m (an integral double); only float-exact operations are provided by SymFP"""
+        __slots__ = ()
 
         def __sx_isinstance__(self, Ts):
             return True if int in Ts else None
 
-        def __rmul__(self, o):
-            if o == rate:
-                return SymFPInt(self.X)
-            raise Unsupported("unexpected arithmetic on position_ms")
-        __mul__ = __rmul__
+        def __mul__(self, o):
+            if isinstance(o, int) and not isinstance(o, bool):
+                return SymFPInt(_z3.fpMul(RNE, self.t, fpv(o)))          # int * int: exact below 2**53
+            return SymFP.__mul__(self, o)
+        __rmul__ = __mul__
 
     def path(e):
-        X = _z3.FP("X", F)
+        M = _z3.FP("M", F)
+        X = _z3.fpMul(RNE, fpv(float(rate)), M)
         lim = fpv(float(2 ** bits))
-        e.add(_z3.And(_z3.fpEQ(X, _z3.fpRoundToIntegral(RNE, X)), _z3.fpGEQ(X, _z3.fpNeg(lim)), _z3.fpLEQ(X, lim)))
+        e.add(_z3.And(_z3.fpEQ(M, _z3.fpRoundToIntegral(RNE, M)), _z3.fpGEQ(X, _z3.fpNeg(lim)), _z3.fpLEQ(X, lim),
+                      _z3.Not(_z3.fpIsNaN(M)), _z3.Not(_z3.fpIsInf(M))))
         src = Capture(b"", rate, 1, 1)
         Capture.captured = None
         try:
-            src.position_ms = Ms(X)
+            src.position_ms = Ms(M)
         except Exception as ex:
             return {"status": "unsupported", "why": "setter raised %s: %s" % (type(ex).__name__, str(ex)[:60])}
         t = Capture.captured
@@ -281,15 +281,51 @@ def ms_setter_fp_harness(iom, rate, bits):
         goal = _z3.And(_z3.fpEQ(t.t, _z3.fpRoundToIntegral(_z3.RTZ(), t.t)),
                        _z3.If(_z3.fpGEQ(X, fpv(0.0)), _z3.And(_z3.fpGEQ(rem, fpv(0.0)), _z3.fpLT(rem, fpv(1000.0))),
                               _z3.And(_z3.fpLEQ(rem, fpv(0.0)), _z3.fpGT(rem, fpv(-1000.0)))))
-        r = e.second_opinion(goal, tlimit_ms=900000)
+        r = e.second_opinion(goal, tlimit_ms=900000, get_values=("M",))
         e.stats["queries"] += 1
         e.stats["q_" + (r if r in ("sat", "unsat") else "unknown")] += 1
         if r == "unsat":
             return {"status": "ok", "solver": "cvc5", "range": "|rate*ms| <= 2**%d" % bits}
         if r == "sat":
-            return {"status": "unknown", "why": "cvc5 reports a counterexample to the exact-truncation lemma for |rate*ms| <= 2**%d (not replayed)" % bits}
+            m = parse_fp_value(e.cvc5_values)
+            if m is not None and m == int(m) and abs(int(m) * rate) <= 2 ** 26:
+                return {"status": "cex", "failing": ["position_ms setter is not the exact truncated quotient"],
+                        "cex": {"kind": "ms-exact", "rate": rate, "m": int(m)}}
+            return {"status": "unknown", "why": "cvc5 reports a counterexample to the exact-truncation lemma for |rate*ms| <= 2**%d that is too large to replay (%s)" % (bits, e.cvc5_values)}
         return {"status": "unknown", "why": "cvc5: %s for |rate*ms| <= 2**%d" % (r, bits)}
     return path
+
+
+def parse_fp_value(text):
+    """'((M (fp #b0 #b10000000011 #b0100...)))' -> python float"""
+    import re
+    import struct
+    if not text:
+        return None
+    m = re.search(r"\(fp #b([01]) #b([01]{11}) #b([01]{52})\)", text)
+    if not m:
+        return None
+    bits = int(m.group(1) + m.group(2) + m.group(3), 2)
+    return struct.unpack(">d", struct.pack(">Q", bits))[0]
+
+
+def replay_ms_exact(c):
+    ak = loader.real_auditok()
+    from auditok import io as rio
+    rate, m = c["rate"], c["m"]
+    want = int(__import__("fractions").Fraction(rate * m, 1000))
+    n = abs(want) + 2
+    src = rio.BufferAudioSource(bytes(n), rate, 1, 1)
+    try:
+        src.position_ms = m
+        got = src.position
+    except Exception as ex:
+        return [("C11: position_ms raises %s for an in-range value" % type(ex).__name__, "rate %d, position_ms = %d: %s" % (rate, m, ex))]
+    exp = want if want >= 0 else n + want
+    if got != exp:
+        return [("C11: position_ms lands on the wrong sample", "BufferAudioSource(%d samples at %d Hz).position_ms = %d -> position %d, expected %d (= trunc(%d*%d/1000)%s)" % (
+            n, rate, m, got, exp, rate, m, " from the end" if want < 0 else ""))]
+    return []
 
 
 _FPJOB = None
@@ -313,6 +349,8 @@ def mk(m, D, trace, args, sw, ch, sr, p0=None, _unused=None, is_open=None, kind=
 
 # ------------------------------------------------------------------ replay
 def replay_fn(c):
+    if c.get("kind") == "ms-exact":
+        return replay_ms_exact(c)
     ak = loader.real_auditok()
     from auditok import io as rio
     sw, ch, sr, n = c["sw"], c["ch"], c["sr"], c["n"]
@@ -475,6 +513,7 @@ def replay(c):
 
 
 def run(rep):
+    tok.VALIDATE[0] = replay_fn
     b = BOUNDS[rep.tier]
     L = loader.load(("exceptions", "io"))
     iom = L.modules["io"]
@@ -511,6 +550,7 @@ def run(rep):
     fppool.terminate()
     for bits, ex in zip(widths, exs):
         rep.add_exploration("position_ms-exact[|rate*ms|<=2^%d]" % bits, ex)
+        tok.handle_cex(rep, "position_ms-exact", ex, replay_fn)
         for r in ex.results:
             if r["status"] == "unknown":
                 rep.inconclusive.append("position_ms exactness for 2^%d: %s" % (bits, r.get("why")))
